@@ -354,7 +354,54 @@ func runC14(w *fw.W) {
 				}
 				return vals
 			}
-			switch op := rng.Intn(14); {
+			switch op := rng.Intn(17); {
+			case op == 14:
+				// stepping through an object property that holds the iterator steps that iterator
+				run(fmt.Sprintf("box := {it: %s, n: 1}", name))
+				v, st := world.next(m)
+				advanced[m] = true
+				if rng.Intn(2) == 0 {
+					expectVal("next-through-property", "box.it.next", v, st)
+				} else {
+					expectVal("next-through-inherited-property", "box.bear({z: 1}).it.next", v, st)
+				}
+			case op == 15 && l.finite() && l.kind != "outer":
+				// a list chain over (a copy of) this iterator whose block steps another iterator: the block's own
+				// StopIterErr (the other one ran out first) is an error like any other
+				other := its[rng.Intn(len(its))]
+				m2 := world.machs[other]
+				if m2 == m || m2.lit.kind == "outer" || l.kind == "nilyield" || m2.lit.kind == "nilyield" {
+					break
+				}
+				var pairs []string
+				stopped := false
+				for _, v := range enumerate(*m) {
+					v2, st := world.next(m2)
+					advanced[m2] = true
+					if st {
+						stopped = true
+						break
+					}
+					pairs = append(pairs, "["+v+", "+v2+"]")
+				}
+				expectVal("list-chain-stepping-another-iterator", fmt.Sprintf("%s@{|x| [x, %s.next]}", name, other), "["+strings.Join(pairs, ", ")+"]", stopped)
+			case op == 16 && l.finite() && l.kind != "outer":
+				other := its[rng.Intn(len(its))]
+				m2 := world.machs[other]
+				if m2 == m || m2.lit.kind == "outer" {
+					break
+				}
+				cnt := 0
+				stopped := false
+				for range enumerate(*m) {
+					if _, st := world.next(m2); st {
+						stopped = true
+						break
+					}
+					cnt++
+				}
+				advanced[m2] = true
+				expectVal("reduce-chain-stepping-another-iterator", fmt.Sprintf("%s$(0){|acc, x| %s.next; acc + 1}", name, other), fmt.Sprint(cnt), stopped)
 			case op < 4:
 				v, st := world.next(m)
 				advanced[m] = true
